@@ -309,23 +309,41 @@ theorem mirror_exact_times (e : Env) (src dst : CEnts) (hwf : Copy.entsWf src = 
   exact view_eq_file this
 
 /-- IDEMPOTENCE: mirroring again changes nothing observable (types, bytes, times at every path),
-for both values of `copy_if_newer`, every `preserve_time`, every file / directory filter — as long
-as the walker scans every directory it yields (no depth limit; see the counterexample below). -/
-theorem mirror_idempotent (e : Env) (o : MOpts) (w : Walker) (hw : w.maxDepth = none) (src dst : CEnts)
+for both values of `copy_if_newer`, every `preserve_time`, every walker — arbitrary file and
+directory filters and any depth limit (a directory the walker yields but does not scan is left as
+the first run made it). -/
+theorem mirror_idempotent (e : Env) (o : MOpts) (w : Walker) (src dst : CEnts)
     (hwf : Copy.entsWf src = true) (q : List Name) :
     view (getE q (mirror e o w src (mirror e o w src dst))) = view (getE q (mirror e o w src dst)) := by
   cases q with
   | nil => simp [getE, view]
-  | cons k r => exact mirror_idempotent_aux e o w hw (k :: r) (by simp) src dst [] 0 hwf
+  | cons k r => exact mirror_idempotent_aux e o w (k :: r) (by simp) src dst [] 0 hwf
+
+/-- EVERY YIELDED DIRECTORY EXISTS: in every directory the walk reaches (source entries `es`,
+destination listing `ds`, at any depth), each source directory the walker yields is a directory at
+the destination afterwards — whether or not it is scanned, and whatever was there before (nothing,
+a directory, or a file in the way). -/
+theorem mirror_yielded_dir_is_dir (e : Env) (o : MOpts) (w : Walker) (abs : List Name) (depth : Nat)
+    (es ds : CEnts) (hwf : Copy.entsWf es = true) (k : Name) (sub : CEnts)
+    (hk : lookup k es = some (.dir sub)) (hd : w.dirOk abs k = true) :
+    view (lookup k (mirrorNode e o w abs depth (.dir es) ds)) = .dir := by
+  rw [mirrorNode_lookup _ _ _ _ _ _ _ hwf, hk]
+  simp only [hd, Bool.true_and]
+  split
+  · rfl
+  · simp only [stepSpec, hk, hd, if_true]
+    cases lookup k ds with
+    | none => rfl
+    | some x => cases x <;> rfl
 
 /-- SECOND RUN COPIES NOTHING: with `copy_if_newer=True`, a destination that reports times and a
 source whose files all have known times that are not in the future (or are preserved —
 `timesKnown`), mirroring a second time calls `copy_file` for no file at all. -/
-theorem mirror_second_run_copies_nothing (e : Env) (o : MOpts) (w : Walker) (hw : w.maxDepth = none)
+theorem mirror_second_run_copies_nothing (e : Env) (o : MOpts) (w : Walker)
     (hc : o.copyIfNewer = true) (hd : e.dstTimes = true) (src dst : CEnts)
     (hwf : Copy.entsWf src = true) (ht : timesKnownEnts e o src = true) :
     mirrorCopied e o w src (mirror e o w src dst) = [] :=
-  secondRun_node e o w hw hc hd (.dir src) [] 0 dst (by simpa [CNode.wf] using hwf) (by simpa [timesKnown] using ht)
+  secondRun_node e o w hc hd (.dir src) [] 0 dst (by simpa [CNode.wf] using hwf) (by simpa [timesKnown] using ht)
 
 /-- …but not when a time is unknown: `_compare` then always says "copy" -/
 theorem mirror_second_run_unknown_time_counterexample :
@@ -346,19 +364,21 @@ theorem mirror_newer_counterexample :
       [(['a'], .file [1] (some 2000))] [(['a'], .file [2] (some 3000))])) = .file [2] (some 3000) := by
   decide
 
-/-- A walker with a depth limit yields directories it does not scan.  When the destination has a
-*file* under such a name, `_mirror` removes the file and never creates the directory: after the
-first mirror nothing is there (not a replica of what the walker selected), and the second mirror
-creates the directory (not idempotent).  Open finding `C19/known/mirror-file-in-the-way-of-unscanned-directory`;
-the statements `mirror_exact` / `mirror_idempotent` for `maxDepth := some 1` are false: -/
-theorem mirror_unscanned_dir_counterexample :
+/-- REGRESSION (fixed finding, /repo c47cb90): a walker with a depth limit yields directories it
+does not scan.  With a destination *file* under such a name `_mirror` used to remove the file and
+never create the directory (nothing there after the first run, a directory after the second).
+The repaired loop replaces the file by a directory at once: the directory is there after the first
+run and the second run changes nothing.  (General statements: `mirror_yielded_dir_is_dir`,
+`mirror_idempotent`.) -/
+theorem mirror_unscanned_dir_repaired :
     let e : Env := { now := 9000, dstTimes := true }
     let o : MOpts := { copyIfNewer := false, preserve := false }
     let w : Walker := { fileOk := fun _ _ => true, dirOk := fun _ _ => true, maxDepth := some 1 }
     let src : CEnts := [(['a'], .dir [(['b'], .file [1] (some 2000))])]
     let dst : CEnts := [(['a'], .file [9] (some 1000))]
     walkEnts w [] 0 src = [([['a']], Item.dir)] ∧
-    view (getE [['a']] (mirror e o w src dst)) = .absent ∧
+    view (getE [['a']] (mirror e o w src dst)) = .dir ∧
+    view (getE [['a'], ['b']] (mirror e o w src dst)) = .absent ∧
     view (getE [['a']] (mirror e o w src (mirror e o w src dst))) = .dir := by
   decide
 
